@@ -115,8 +115,11 @@ class Probe(Stream):
         log = self.log
         log.nd += 1
         d = log.nd
+        extra = {}
+        if isinstance(x, str):
+            extra = {"text": x, "raw": list(x.encode("utf-8"))}
         log.add("deliver", probe=self.pid, d=d, x=flat(x), md=enc_md(metadata),
-                shape="batch" if isinstance(x, (tuple, list)) else "one")
+                shape="batch" if isinstance(x, (tuple, list)) else "one", **extra)
         if self.mode == "sync":
             log.add("cons_done", d=d, probe=self.pid)
             return []
